@@ -62,7 +62,10 @@ def isNumberInMultiplicativeGroup (n : Int) (v : Nat) : Bool :=
 def xsCandidate (H : HashFn) (i cnt : Nat) (kb sxb syb nb : Bytes) (blocks : Nat) : Nat :=
   bytesToNat ((List.range blocks).flatMap fun j => H (frame [itoa i, itoa j, itoa cnt, kb, sxb, syb, nb]))
 
-/-- `GenerateXs(m, k, N, pub)`; `none` = fuel exhausted (the Go loop would not terminate) -/
+def maxXsRejections : Nat := 1000
+
+/-- `GenerateXs(m, k, N, pub)`. `none` = the Go function returns nil after more than
+`maxXsRejections` rejected candidates (before the K10 repair: the loop never terminated). -/
 def generateXsLoop (H : HashFn) (m : Nat) (kb sxb syb nb : Bytes) (nInt : Int) (blocks : Nat) :
     Nat → Nat → Nat → List Nat → Option (List Nat)
   | 0, _, _, _ => none
@@ -70,20 +73,21 @@ def generateXsLoop (H : HashFn) (m : Nat) (kb sxb syb nb : Bytes) (nInt : Int) (
     if i ≥ m then some acc.reverse else
     let x := xsCandidate H i cnt kb sxb syb nb blocks
     if isNumberInMultiplicativeGroup nInt x then generateXsLoop H m kb sxb syb nb nInt blocks fuel (i + 1) cnt (x :: acc)
+    else if cnt + 1 > maxXsRejections then none
     else generateXsLoop H m kb sxb syb nb nInt blocks fuel i (cnt + 1) acc
 
 def generateXs (H : HashFn) (m : Nat) (k : Int) (n : Int) (pub : ECPoint) : Option (List Nat) :=
   let bits := bitLen n.natAbs
   let blocks := (bits + 255) / 256
   generateXsLoop H m (intToBytesBE k) (natToBytesBE pub.1) (natToBytesBE pub.2) (intToBytesBE n) n blocks
-    (m + 200) 0 0 []
+    (m + maxXsRejections + 2) 0 0 []
 
 def proofIters : Nat := 13
 
 /-- `(*PrivateKey).Proof`; `none` = nil from `ModInverse(N, φ)` used by `Exp` (panic) -/
 def proof (H : HashFn) (sk : PrivateKey) (k : Int) (pub : ECPoint) : Outcome (List Nat) :=
   match generateXs H proofIters k sk.n pub with
-  | none => .err "hang"
+  | none => .panic "index-out-of-range"
   | some xs =>
     match modInverse sk.n sk.phiN with
     | none => .panic "nil-mod-inverse"
@@ -93,15 +97,13 @@ def smallPrimes : List Nat :=
   (List.range 1000).filter fun n => n ≥ 2 && (List.range n).all fun d => d < 2 || n % d != 0
 
 structure ProofCfg where
-  rejectTrivialN : Bool   -- K10 repair: N ≤ 1 is refused before `GenerateXs` (which would never return)
+  boundedXs : Bool   -- K10 repair: `GenerateXs` gives up instead of looping forever
 
 /-- `Proof.Verify(pkN, k, pub)`. `err "hang"` stands for the non-terminating `GenerateXs` loop. -/
 def proofVerify (cfg : ProofCfg) (H : HashFn) (pf : List Int) (pkN : Int) (k : Int) (pub : ECPoint) : Outcome Bool :=
-  if cfg.rejectTrivialN && pkN ≤ 1 then .ok false else
-  if pkN = 0 then .panic "mod-by-zero-or-hang" else
   if smallPrimes.any (fun prm => pkN % (prm : Int) == 0) then .ok false else
   match generateXs H proofIters k pkN pub with
-  | none => .err "hang"
+  | none => if cfg.boundedXs then .err "xs" else .err "hang"
   | some xs =>
     if pf.length != proofIters then .panic "index" else
     .ok ((List.range proofIters).all fun i =>
